@@ -43,6 +43,20 @@ var selRewrites = map[rewriteKey]string{
 	{"context", "Background"}:   "mcctx",
 	{"context", "TODO"}:         "mcctx",
 
+	{"context", "WithCancelCause"}:   "mcctx",
+	{"context", "WithTimeoutCause"}:  "mcctx",
+	{"context", "WithDeadlineCause"}: "mcctx",
+	{"context", "WithoutCancel"}:     "mcctx",
+	{"context", "AfterFunc"}:         "mcctx",
+	{"context", "Cause"}:             "mcctx",
+
+	{"time", "NewTimer"}:  "mctime",
+	{"time", "AfterFunc"}: "mctime",
+	{"time", "NewTicker"}: "mctime",
+	{"time", "Tick"}:      "mctime",
+	{"time", "Timer"}:     "mctime",
+	{"time", "Ticker"}:    "mctime",
+
 	{"time", "After"}: "mctime",
 	{"time", "Sleep"}: "mctime",
 
@@ -53,8 +67,7 @@ var selRewrites = map[rewriteKey]string{
 }
 
 var unsupported = map[rewriteKey]bool{
-	{"time", "NewTimer"}: true, {"time", "AfterFunc"}: true, {"time", "Tick"}: true, {"time", "NewTicker"}: true,
-	{"context", "AfterFunc"}: true, {"context", "WithCancelCause"}: true,
+	{"runtime", "Gosched"}: true, {"os/signal", "Notify"}: true,
 }
 
 type instr struct {
@@ -94,6 +107,20 @@ func (in *instr) isMap(e ast.Expr) bool {
 	}
 	_, ok := t.Underlying().(*types.Map)
 	return ok
+}
+
+// isOrderedKeyMap: a map whose key type can be sorted by mc.Keys (cmp.Ordered).
+func (in *instr) isOrderedKeyMap(e ast.Expr) bool {
+	t := in.info.TypeOf(e)
+	if t == nil {
+		return false
+	}
+	m, ok := t.Underlying().(*types.Map)
+	if !ok {
+		return false
+	}
+	b, ok := m.Key().Underlying().(*types.Basic)
+	return ok && b.Info()&(types.IsOrdered) != 0
 }
 
 func (in *instr) fresh(p string) string {
@@ -212,7 +239,7 @@ func (in *instr) file(f *ast.File) {
 			if in.isChan(n.X) {
 				in.nChan++
 				c.Replace(in.rangeChan(n))
-			} else if in.isMap(n.X) {
+			} else if in.isOrderedKeyMap(n.X) {
 				in.nMap++
 				c.Replace(in.rangeMap(n))
 			}
